@@ -584,9 +584,43 @@ func runCloseRace(in ChaosIn) ChaosObs {
 		}
 		race("listener", l.Close)
 		race("connection", c.Close)
+		// openers: goroutines opening FRESH ids while the mux is being closed. Whatever Open hands
+		// out around that moment must be a connection of a closed mux: its Read returns.
+		var opened []net.Conn
+		var omu sync.Mutex
+		var owg sync.WaitGroup
+		var stopOpen atomic.Bool
+		for k := 0; k < 4; k++ {
+			owg.Add(1)
+			go func(k int) {
+				defer owg.Done()
+				for n := 0; n < 60 && !stopOpen.Load(); n++ {
+					x, err := ma.Open(mux.ConnID(1000 + k*100 + n))
+					if err != nil {
+						return
+					}
+					omu.Lock()
+					opened = append(opened, x)
+					omu.Unlock()
+				}
+			}(k)
+		}
+		if round%3 == 2 {
+			time.Sleep(time.Duration(20+round%200) * time.Microsecond)
+		}
 		race("mux", ma.Close)
+		stopOpen.Store(true)
+		owg.Wait()
 		if !call(wait, parked.Wait) {
 			blocked("Accept/Read parked on objects that were closed")
+		}
+		var rwg sync.WaitGroup
+		for _, x := range opened {
+			rwg.Add(1)
+			go func(x net.Conn) { defer rwg.Done(); x.Read(make([]byte, 16)) }(x)
+		}
+		if !call(wait, rwg.Wait) {
+			blocked(fmt.Sprintf("Read on a connection handed out by Open while the mux was being closed (%d opened in this round)", len(opened)))
 		}
 		mb.Close()
 		ca.Close()
